@@ -227,8 +227,13 @@ def run_case(case):
         elif item[0] == 'unit':
             p.setdefault('units', {})[item[1]] = item[2]
         elif item[0] == 'layer':
+            # (a NotImplementedError means "cannot be torn down" when it
+            # comes out of tearDown - out of setUp it is an error like any)
             p.setdefault('layers', {}).setdefault(item[1], {})[item[2]] = \
-                'raise:' + rng.choice(['ValueError', 'KeyError', 'NeedsArgs'])
+                'raise:' + rng.choice(
+                    ['ValueError', 'KeyError', 'NeedsArgs'] +
+                    (['NotImplementedError'] * 2 if item[2] == 'setUp'
+                     else []))
         else:
             p.setdefault('modules', {})[item[1]] = rng.choice([
                 {'what': 'raise', 'exc': 'ImportError'},
